@@ -384,7 +384,11 @@ class Resolver:
                 ms = self.methods_for({r[1]}, "__call__")
                 return Resolution(ms, via="singleton __call__")
             if isinstance(r, tuple) and r[0] == "const":
-                return self._resolve_value_as_callable(func, r[1], _depth + 1)
+                # evaluate the constant in the module that defines it
+                owner = func
+                if len(r) > 2 and r[2] is not func.module:
+                    owner = Func(ast.parse("def _m(): pass").body[0], r[2])
+                return self._resolve_value_as_callable(owner, r[1], _depth + 1)
             if name in BUILTINS or r is None:
                 return Resolution(external=True, via="builtin/external")
             return Resolution(unknown=True, via="?")
@@ -495,9 +499,22 @@ class Resolver:
                 return Resolution(external=True, via="wraps")
             # result of calling something: a class instance? then __call__
             types = self.type_of_expr(func, v)
+            outs = []
             if types:
-                ms = self.methods_for(types, "__call__")
-                return Resolution(ms, via="instance __call__", external=not ms)
+                outs = list(self.methods_for(types, "__call__"))
+            # a repo function that returns functions (get_optimize_greedy() -> optimize_greedy)
+            r0 = self.resolve_callable_expr(func, v.func, _depth + 1)
+            for g in r0.callees:
+                if g.cls is not None and g.name == "__init__":
+                    continue
+                for n in walk_local(g.node):
+                    if isinstance(n, ast.Return) and isinstance(n.value, (ast.Name, ast.Attribute)):
+                        r1 = self.resolve_callable_expr(g, n.value, _depth + 2)
+                        outs += [c for c in r1.callees if c not in outs]
+            if outs:
+                return Resolution(outs, via="callable returned by " + (dotted(v.func) or "?"))
+            if types:
+                return Resolution(external=True, via="instance without __call__")
             return Resolution(unknown=True, via="call result")
         if isinstance(v, (ast.Name, ast.Attribute, ast.Subscript, ast.Lambda)):
             if isinstance(v, ast.Name) and v.id in ("None",):
